@@ -4,7 +4,7 @@
    One operation = one API call or one inbound frame run to quiescence; the correspondence run drives a real Node
    with concurrent caller tasks against a scripted peer. *)
 From EDP Require Import Base.Bytes Term.Term Gen.PidConsts Codec.Decode Dist.PidAlloc Dist.Control Node.Node Node.NodeFacts.
-From EDP Require Gen.LockScope Conc.AllocConc.
+From EDP Require Gen.LockScope Conc.AllocConc Node.OwnIdFacts.
 Open Scope N_scope.
 
 (* along every run (below the identifier wrap: fewer than 2^20 allocations) every call started is either pending or
@@ -55,5 +55,11 @@ Theorem C17_each_call_returns_at_most_once : forall cfg ops name c conn,
   let st := run cfg (node_init name c conn) ops in
   NoDup (map fst (n_results st)) /\ (forall i, In i (pend_calls st) -> ~ In i (map fst (n_results st))).
 Proof. intros cfg ops name c conn H. exact (returned_once _ (C17_bookkeeping cfg ops name c conn H)). Qed.
+
+(* along every run: every call the node is waiting for is addressed by the node's own name and the creation it was
+   started with, so a reply addressed to another node or to an earlier incarnation of this one matches no waiting call *)
+Theorem C17_waiting_calls_have_own_reply_address : forall name c cfg conn ops e,
+  In e (n_pending (run cfg (node_init name c conn) ops)) -> pnode (fst e) = name /\ pcreation (fst e) = c.
+Proof. exact OwnIdFacts.waiting_calls_have_own_reply_address. Qed.
 
 Check C17_bookkeeping.
